@@ -31,6 +31,8 @@ RICH = rich_world()
 NEST3_LEAVES = [("cmp", "eq", A(X, "p"), L(1)), ("cmp", "eq", A(Y, "p"), L(1)), ("cmp", "ge", A(Z, "q"), L(2)),
                 ("cmp", "eq", A(X, "p"), A(Y, "p")), ("cmp", "lt", A(Y, "q"), A(Z, "q")), ("cmp", "ne", A(X, "q"), A(Z, "p")),
                 ("cmp", "eq", A(Z, "p"), L(2))]
+OR3_LEAVES = [("cmp", "gt", A(Y, "q"), A(X, "p")), ("cmp", "eq", A(X, "p"), L(1)), ("cmp", "eq", A(Y, "p"), A(X, "q")),
+              ("cmp", "eq", A(Y, "q"), L(2)), ("cmp", "lt", A(X, "q"), A(Y, "p"))]
 XYZ_REP = XY_REP + [("cmp", "eq", A(Y, "p"), A(Z, "p")), ("cmp", "ne", A(X, "p"), A(Z, "q"))]
 
 
@@ -99,6 +101,18 @@ def cases(tier, inst):
                 continue
             for order in itertools.permutations("xyz"):
                 yield ("decl:" + "".join(order), shape, (X, Y, Z), "rich")
+    # (h) three-way disjunctions (flat and with a conjunction inside) whose operands mention x only, y only or both, with
+    #     ONE of the two variables selected, over every world of two x rows and three y rows on the 2x2 grid (which rows
+    #     come back between two false rows of one operand is a matter of the data)
+    doms_x = [d for d in tiny_domains(2) if len(d) == 2]
+    doms_y = [d for d in tiny_domains(3) if len(d) == 3]
+    for a, b, c in itertools.permutations(OR3_LEAVES, 3):
+        if len(Q.cond_vars(("orf", a, b, c))) < 2:
+            continue
+        for shape in (("orf", a, b, c), ("or", ("and", a, b), c)):
+            for sel in (((X,), (Y,)) if thorough else ((X,),)):
+                for da, db in itertools.product(doms_x, doms_y):
+                    yield ("xy", shape, sel, (("DA", "Item", da), ("DB", "Item", db)))
     if thorough:
         for t in trees_by_depth(XYZ_REP, 2):
             if Q.depth(t) < 2:
